@@ -130,4 +130,8 @@ MUTANTS = [
     ("unknown_subject_to_grid_means_control", ST, "        if grid not in ['point', 'control', 'inf', 'integrator', 'integrator_roots']:\n            raise Exception(\"Invalid argument\")", "        if grid not in ['point', 'control', 'inf', 'integrator', 'integrator_roots']:\n            grid = 'control'", ["C20"]),
     ("signal_objective_accepted", ST, "        assert not self.is_signal(term), \"An objective cannot be a signal. You must use ocp.integral or ocp.at_t0/tf to remove the time-dependence\"", "        if self.is_signal(term): term = self.at_tf(term)", ["C20"]),
     ("explicit_scheme_ignores_algebraic", SM, "    def intg_rk(self, f, X, U, P, Z):\n        assert Z.is_empty()", "    def intg_rk(self, f, X, U, P, Z):\n        Z = MX(0,1)", ["C20"]),
+    # --- C19
+    ("dc_to_function_no_helper_init", DC, "        add_xc = depends_on(all_args, states) and not depends_on(all_args, self.Xc_vars)", "        add_xc = False", ["C19"]),
+    ("dc_to_function_helper_init_from_first_node", DC, "                self.Xc_vars0.append(repmat(x, 1, self.degree if i==0 else self.degree+1))", "                self.Xc_vars0.append(repmat(self.X[0], 1, self.degree if i==0 else self.degree+1))", ["C19"]),
+    ("to_function_results_at_initial", "rockit/direct_method.py", "        return self.opti.to_function(name, [stage.value(a) for a in args], results, *margs)", "        return self.opti.to_function(name, [stage.value(a) for a in args], [r if i!=1 else self.opti.value(r, self.opti.initial()) if False else r*1.0000001 for i,r in enumerate(results)], *margs)", ["C19"]),
 ]
